@@ -321,7 +321,7 @@ func (r *Run) Finish() {
 			if len(w) > 300 {
 				w = w[:300] + "..."
 			}
-			fmt.Fprintf(os.Stderr, "  %s: %s\n", f.Key, w)
+			fmt.Fprintf(os.Stderr, "  %s: %s\n", printable(f.Key), printable(w))
 		}
 	}
 	cov := map[string]any{}
@@ -464,4 +464,17 @@ func J(v any) string {
 		return fmt.Sprintf("%v", v)
 	}
 	return string(b)
+}
+
+// printable spells control characters out (a description line goes to a terminal or a text tool; the replay file has the exact bytes).
+func printable(s string) string {
+	var b strings.Builder
+	for i := 0; i < len(s); i++ {
+		if c := s[i]; c < 0x20 || c == 0x7f {
+			fmt.Fprintf(&b, "\\x%02x", c)
+		} else {
+			b.WriteByte(c)
+		}
+	}
+	return b.String()
 }
